@@ -26,6 +26,14 @@ CHECKS = {
    "implementation-shaped TLA+ model of the Broadcaster (lock held across blocking sends, closeCh, closeEventCh, forwarders) checked exhaustively by TLC for common order, quiet-after-Close and liveness of Close/Broadcast; real Broadcaster driven by a gated scheduler (decision points + slow readers), observable traces judged by TLC against the BcastContract monitor",
    "TLC explores all interleavings of 2 subscribers (prompt/stalled) x 2 broadcasters x Close for buffer capacity 1-2 incl. liveness; the real code runs ~700 (quick) to tens of thousands (thorough) controlled schedules of staged and random programs (stalled readers with >10 outstanding, churn, Close at any point), each trace checked for exactly-once to stayers, at-most-once, one common order (acyclicity of the union of per-subscriber orders and call order), nothing after Close, no stuck call",
    "trusted: TLC; quiescence detection by goroutine wait states (undrivable runs are inconclusive); a receive counts as 'after Close' only if the reader began waiting after Close returned (sound, slightly weak); schedules sampled", "DESIGN.md#c11"),
+ "C01": ("model_checking",
+   "TLA+ model of the segment loop (EncFraming) and of the document/option structure (EncV1Format) checked exhaustively by TLC against contract monitors; the real processSegments loop run at small segment sizes over all reader scripts and the real Encrypt/Decrypt at 64 KiB over boundary lengths x ciphers x key-wrap ids/aliases x key-name options x reader/consumer chunkings, every run recorded (structure decomposed by an independent README-derived implementation) and judged by TLC",
+   "framing: every reader script (all compositions, EOF styles, zero reads, errors) for S in {3,4} on the real loop via a verif export, validated by TLC; format: each produced document is decomposed by an independent implementation written from README.md and the structural trace (header lines, manifest fields, MAC span, per-segment length/counter/last flag/nonce) is validated by TLC; interop both ways incl. stored testdata",
+   "trusted: TLC; the independent reference implementation (encref, ~300 lines, checked against the stored testdata); cryptographic primitives of the Go standard library", "DESIGN.md#c01"),
+ "C02": ("model_checking",
+   "symbolic (Dolev-Yao style) TLA+ model of documents, adversary operations and the decryptor (EncTamper) checked exhaustively by TLC: released bytes are always a prefix, clean EOF only on the full message, source errors surface; TLC exports every terminal state as a mutation script with predicted outcome, the scripts and byte-level sweeps are replayed on real documents and the outcomes judged by TLC against the contract monitor",
+   "all documents of <=3 segments x <=2 (3) adversary operations x source failures explored on the model (3.9M states thorough); ~22k (quick) to ~100k (thorough) mutated real documents at the real segment size, both ciphers: every header bit, segment edges and tags, every truncation offset class, delete/duplicate/swap/append/splice, wrong key, source failures at 5 offset classes x error kinds x with/without data",
+   "trusted: TLC; AES-GCM/ChaCha20-Poly1305/HMAC strength (symbolic model); known finding: header-only truncation (inherent in the format) listed in known-findings.txt", "DESIGN.md#c02"),
 }
 
 def hook_commits():
